@@ -95,7 +95,7 @@ def load_known():
     return json.loads(p.read_text()).get("findings", [])
 
 
-_TAG = re.compile(r"\|(?:True|False|None)(?:,(?:True|False|None))*(?:/handler)?$")
+_TAG = re.compile(r"\|(?:T|F|None|True|False|-|(?:not)?(?:==|!=|<=|>=|<|>|isnot|is|notin|in)[-\w.+]*)(?:,(?:T|F|None|True|False|-|(?:not)?(?:==|!=|<=|>=|<|>|isnot|is|notin|in)[-\w.+]*))*(?:/handler)?$")
 
 
 def _untag(key):
